@@ -31,7 +31,12 @@ def run_job(job):
                 v = float(v) if not v.is_Rational else Fraction(int(v.p), int(v.q))
             if isinstance(v, complex):
                 raise K.EncodeError('complex value')
-            g = K.coef_to_G(v)
+            try:
+                g = K.coef_to_G(v)
+            except K.EncodeError:
+                # in the stated domains the exact answer is a small fraction; a float that is not one is logged
+                # as a marker value that no certificate can accept (TLC then rejects the event)
+                g = K.G.const(97)
             keys.append(int(k))
             coefs.append(g.to_json('rat'))
         return {'keys': keys, 'coefs': coefs}
